@@ -40,7 +40,7 @@ THEOREMS = ["JanetModel.Props.C16." + t for t in (
     # session 3: liveness under an explicit fairness hypothesis
     "op_ends_within_fair_events", "every_op_completes_under_fairness")]
 PROC_CURRENT = ["JanetModel.Proc.Current." + t for t in (
-    "current_source_status_decoder", "current_source_waitpid_options", "exit_status_exact_current", "current_source_moves_std_sources")]
+    "current_source_waitpid_options", "exit_status_exact_current", "current_source_moves_std_sources")]
 PLUMB_CASES = {"quick": 160, "thorough": 2400}
 CURRENT = ["JanetModel.Stream.Current." + t for t in (
     "current_source_guards_read_slot", "current_source_guards_write_slot", "current_source_registers_dgram_for_write",
@@ -427,6 +427,7 @@ def exec_checks(ctx, exe):
         for c in (0, 3, 143):
             exp[("inject-close", str(c))] = "ok %d rc %d" % (c, c)
         exp[("inject-twice", "0")] = "ok 42 then err cannot wait twice on a process rc 42"
+        exp[("inject-both", "0")] = "err cannot wait twice on a process | ok 5 rc 5"
         n += len(exp)
         for k, v in exp.items():
             if got.get(k) != v:
